@@ -45,7 +45,7 @@ where
             r is Some ==> *r.unwrap() == old(self).view().nodes[a.i()] && final(self).wf()
                 && final(self).view() == old(self).view().set_node_weight(a.i(), *final(r.unwrap()))/*-*/,   // [node_weight_mut_view]
     {
-        /*+*/let r =/*-*/ self.nodes.get_mut(a.index()).map(|n/*+*/: &mut Node<N, Ix>/*-*/| /*+*/-> (w: &mut N) ensures *w == old(n).weight, final(n).next == old(n).next, final(n).weight == *final(w) {/*-*/ &mut n.weight /*+*/}/*-*/)/*+*/;
+        /*+*/let r = {/*-*/ self.nodes.get_mut(a.index()).map(|n/*+*/: &mut Node<N, Ix>/*-*/| /*+*/-> (w: &mut N) ensures *w == old(n).weight, final(n).next == old(n).next, final(n).weight == *final(w) {/*-*/ &mut n.weight /*+*/}/*-*/) /*+*/};
         proof {
             if a.i() < old(self).n() {
                 let fin = *final(self);
@@ -150,7 +150,7 @@ where
             r is Some ==> *r.unwrap() == old(self).view().edges[e.i()].2 && final(self).wf()
                 && final(self).view() == old(self).view().set_edge_weight(e.i(), *final(r.unwrap()))/*-*/,   // [edge_weight_mut_view]
     {
-        /*+*/let r =/*-*/ self.edges.get_mut(e.index()).map(|ed/*+*/: &mut Edge<E, Ix>/*-*/| /*+*/-> (w: &mut E) ensures *w == old(ed).weight, final(ed).next == old(ed).next, final(ed).node == old(ed).node, final(ed).weight == *final(w) {/*-*/ &mut ed.weight /*+*/}/*-*/)/*+*/;
+        /*+*/let r = {/*-*/ self.edges.get_mut(e.index()).map(|ed/*+*/: &mut Edge<E, Ix>/*-*/| /*+*/-> (w: &mut E) ensures *w == old(ed).weight, final(ed).next == old(ed).next, final(ed).node == old(ed).node, final(ed).weight == *final(w) {/*-*/ &mut ed.weight /*+*/}/*-*/) /*+*/};
         proof {
             if e.i() < old(self).m() {
                 let fin = *final(self);
